@@ -8,6 +8,7 @@ from .. import core, tlc
 from ..trace import TraceWriter
 
 ASSUMPTIONS = [
+    'TLAPS (tla/proofs/StoreProofs.tla, LoaderProofs.tla, checked by tlapm on every run): OldDirsImmutable, FreshDirOrRaise, RoundTrip of Store.tla and LoadOnlyAddsResults, NeverEmptyObject of Loader.tla are proved for ARBITRARY sets of names / models / entries and any history length (TLC enumerates small instances)',
     "file formats (CSV, joblib, JSON) are opaque: objects are compared through projected field values after load; directories through md5 digests of every file",
     "leg A: all histories of <= 3 saves (+ loads) over 2 directory names x 2 models x both storage modes; mkdir(exist_ok=True) is a named wrong design that must be caught",
     "leg C: TLC (-simulate) generates save/load histories over 3 names x 4 models; equal abstract names are forced to collide by pinning the harness-side clock the directory name is derived from; scratch directories live under /verif/.work and are removed",
@@ -41,6 +42,8 @@ MANIFEST = {
 def leg_a(ctx):
     return [{"spec": "MC_Store.tla", "cfg": "MC_Store.cfg", "coverage": True, "workers": 2,
              "what": "all histories of <= 3 saves and any loads over 2 names x 2 models x safe/unsafe"},
+            {"spec": "MC_Store.tla", "cfg": "MC_Store_rename.cfg", "coverage": True, "workers": 2,
+             "what": "the other admissible collision design (another fresh name instead of raising): the same properties hold, 3 names"},
             {"spec": "MC_Store.tla", "cfg": "MC_Store_neg_overwrite.cfg", "expect": "violates:OldDirsImmutable,FreshDirOrRaise", "workers": 2},
             {"spec": "MC_Loader.tla", "cfg": "MC_Loader.cfg", "coverage": True, "workers": 2,
              "what": "membrane directory: all histories of <= 5 edits/loads over 2 curve-set entries x {good, wrong columns, ignorable}"},
@@ -121,7 +124,7 @@ def run(ctx, pool):
     for k in ("states", "transitions", "traces"):
         res[k] += resL[k]
     hist = core.event_histogram(tw)
-    collisions = sum(1 for tr in tw.traces for e in tr if e.get("ev") == "Save" and e.get("outcome") == "raise")
+    collisions = sum(1 for tr in tw.traces for e in tr if e.get("ev") == "Save" and e.get("collision"))
     res["states"] += r.generated
     res["coverage"] = {
         "evaluations": sum(hist.get(k, 0) for k in ("Save", "Load", "RTCurve", "RTFunction", "RTConditions")),
@@ -152,10 +155,11 @@ def run(ctx, pool):
     if collisions == 0:
         res["failures"].append("vacuous: no forced directory-name collision occurred")
     res["trace_lookup"] = lambda v: [{k: x for k, x in v["record"].items() if k not in ("before", "after", "fields")}]
+    core.attach_tlaps(ctx, res, [('StoreProofs.tla', ['Store.tla']), ('LoaderProofs.tla', ['Loader.tla'])])
     return res
 
 
 def classify(v, kf):
-    if v["invariant"].startswith("Ref_"):
+    if v["invariant"].startswith(("Ref_", "Step_")):
         return ("drift", None)
     return ("violation", None)
